@@ -673,7 +673,7 @@ var families = map[string]string{
 	"commitments": "block-by-number", "txsByNumber": "block-by-number", "txAndReceiptByIndex": "block-by-number",
 	"numberByHash": "block-by-hash", "headerByHash": "block-by-hash", "blockByHash": "block-by-hash",
 	"stateUpdateByHash": "block-by-hash", "txLookup": "tx-by-hash", "txByHash": "tx-by-hash", "receiptByHash": "tx-by-hash",
-	"l1HandlerMsg": "l1-msg-by-hash", "requireRetained": "retention-probe", "stateAtNumber": "state-by-number",
+	"l1HandlerMsg": "l1-msg-by-hash", "requireRetained": "retention-probe", "eventsFrom": "events", "stateAtNumber": "state-by-number",
 	"stateAtHash": "state-by-hash",
 }
 
